@@ -28,6 +28,16 @@ impl Tier {
 
 /// The history-engine configuration of a property variant. Shared by run and replay.
 pub fn hist_cfg(property: &str, variant: &str) -> Option<HistCfg> {
+    if variant == "long" && property != "C02" {
+        // the property's usual weights and oracles over long histories of small values
+        // (hundreds of operations: many reallocations, representation switches, clear cycles)
+        let mut c = hist_cfg(property, "hist")?;
+        c.max_ops = 300;
+        c.nslots = 2;
+        c.gp = Gp::small();
+        c.long = true;
+        return Some(c);
+    }
     let mut c = HistCfg::base();
     //            push rsv rsvr clr frsh cln clnf mrg serde
     match (property, variant) {
@@ -540,6 +550,18 @@ pub fn plan(property: &str, tier: Tier, seed: u64) -> Option<Plan> {
         _ => return None,
     };
     let (mut units, mut rule) = (units, rule);
+    if let Some(lp) = ["C08", "C09", "C10", "C11", "C12", "C16", "C18", "C20"].iter().find(|p| **p == property) {
+        let filter: fn(&SpecInfo) -> bool = match *lp {
+            "C09" => clonable,
+            "C11" => collapsing,
+            "C12" => dense,
+            "C16" => serdeable,
+            "C18" => heapy,
+            _ => any_spec,
+        };
+        units.extend(hist_units(lp, "long", tier.pick(40, 300), 2400, seed, filter, false));
+        rule.push_str(" Long mode: the same oracles over histories of up to 300 operations on two slots with small values (many reallocations, representation switches and clear/merge/clone cycles).");
+    }
     if matches!(property, "C02" | "C08" | "C09" | "C10" | "C13" | "C16" | "C18" | "C19") {
         let (sp, n): (&'static str, u32) = match property {
             "C02" => ("C02", tier.pick(1500, 8000)),
